@@ -120,6 +120,9 @@ type ChildCfg struct {
 	Name     string `json:"name"`
 	Parent   string `json:"parent"`
 	Extended bool   `json:"extended,omitempty"`
+	// UniqueExtra: the child store has an index of its own, a nullable unique index over its child-only field
+	// (at most one such child store per parent: the index bucket is keyed by the parent's entity type)
+	UniqueExtra bool `json:"uniqueExtra,omitempty"`
 }
 
 // LinkCfg: many-to-many link collection between A.FieldA and B.FieldB.
@@ -267,7 +270,10 @@ func NewWorld(cfg WorldCfg) (*World, error) {
 		}
 		ks.InitImpl(ks)
 		parent.GrantSymbols(ks)
-		ks.AddSymbol(FExtra, ast.NodeTypeString)
+		extraSym := ks.AddSymbol(FExtra, ast.NodeTypeString)
+		if cc.UniqueExtra {
+			w.Unique[cc.Name+"."+FExtra] = ks.AddNullableUniqueIndex(extraSym)
+		}
 		parent.RegisterChildStoreStrategy(&boltz.ChildStoreUpdateHandler[*Ent, *Kid]{
 			Store: ks,
 			Mapper: func(ctx boltz.MutateContext, p *Ent) (*Kid, bool) {
@@ -528,6 +534,17 @@ func (m *Model) holderOf(store, field, val, except string) string {
 	return ""
 }
 
+// extraHolder returns the id (other than except) whose child data in the given child store holds the extra value.
+func (m *Model) extraHolder(child, val, except string) string {
+	cc, _ := m.childCfg(child)
+	for id, e := range m.Ents[cc.Parent] {
+		if x, has := e.Kid[child]; has && x == val && id != except {
+			return id
+		}
+	}
+	return ""
+}
+
 func hasEmpty(xs []string) bool {
 	for _, x := range xs {
 		if x == "" {
@@ -628,7 +645,11 @@ func (m *Model) Create(store, id string, s EntSpec, system bool) []string {
 			return []string{Unspecified} // turning an existing plain parent into a child entity
 		}
 		next := specToMEnt(s)
-		if r := m.checkWrite(parent, id, nil, next, system); len(r) > 0 {
+		r := m.checkWrite(parent, id, nil, next, system)
+		if cc.UniqueExtra && s.Extra != "" && m.extraHolder(store, s.Extra, id) != "" {
+			r = append(r, ErrDuplicate)
+		}
+		if len(r) > 0 {
 			return r
 		}
 		next.Kid[store] = s.Extra
@@ -712,10 +733,14 @@ func (m *Model) Update(store, id string, s EntSpec, fields []string, system bool
 			}
 		}
 	}
+	var kidCauses []string
 	if target != "" && viaChild && sel(FExtra) {
+		if cc.UniqueExtra && s.Extra != "" && s.Extra != old.Kid[target] && m.extraHolder(target, s.Extra, id) != "" {
+			kidCauses = append(kidCauses, ErrDuplicate)
+		}
 		next.Kid[target] = s.Extra
 	}
-	if r := m.checkWrite(parent, id, old, next, system); len(r) > 0 {
+	if r := append(m.checkWrite(parent, id, old, next, system), kidCauses...); len(r) > 0 {
 		return r
 	}
 	m.Ents[parent][id] = next
